@@ -686,6 +686,79 @@ def o7(h, st):
     h.done()
 
 
+# ---------------------------------------------------------------------------------------------------------------------
+# O8  the GENERIC statevector route (backends without a native expectation value): Pauli-circuit overlap, and its sampled variant
+
+def _generic_backend(n_shots=None):
+    """a cirq backend whose native expectation-value method is hidden, as on a backend that does not offer one: Backend._get_expectation_value_from_statevector then takes
+    its own generic route (the installed backends both have a native method, so no other contract reaches those lines)"""
+    from tangelo.linq.target.target_cirq import CirqSimulator
+
+    class _NoNativeExpectation(CirqSimulator):
+        def __getattribute__(self, name):
+            if name == "expectation_value_from_prepared_state":
+                raise AttributeError(name)
+            return super().__getattribute__(name)
+    return _NoNativeExpectation(n_shots=n_shots)
+
+
+@contract("C02", "O8.generic_statevector_route", level="B",
+          structures=lambda tier: [{"prep": p, "op": o, "init": it, "mode": md} for p in (0, 1, 2, 3) for o in range(len(OPS)) for it in (False, True) for md in ("exact", "direct", "sampled_certain")
+                                   if not (p == 3 and md == "sampled_certain")],
+          native_samples=lambda st, rnd, tier: [{"seed": rnd.randint(0, 10 ** 6)}],
+          targets=[(BK, "Backend._get_expectation_value_from_statevector"), (BK, "Backend.get_expectation_value")])
+def o8(h, st):
+    """bounded (cirq simulation, 1e-8), on a backend WITHOUT a native expectation value: get_expectation_value (exact mode; real and complex coefficients, identity term,
+    supplied initial statevector, desired mid-circuit result) and the direct call of the statevector route equal <psi|H|psi> computed independently; the sampled variant of
+    the route (n_shots set) is exact whenever every outcome is certain (computational basis states, Z / identity words); the operator and the circuit are unchanged"""
+    import random
+    import numpy as np
+    from tangelo.toolboxes.operators import QubitOperator
+    rnd = random.Random(int(h.integer("seed")))
+    n = 3
+    mode = st["mode"]
+    spec = PREPS[st["prep"]]
+    words = list(OPS[st["op"]])
+    if mode == "sampled_certain":
+        # every outcome certain: a basis-state preparation and diagonal words
+        spec = [("X", [0], None, ""), ("X", [2], None, "")] if st["prep"] % 2 == 0 else [("X", [1], None, ""), ("CNOT", [2], [1], "")]
+        words = ["ZII", "IZZ", "III", "ZIZ"][: 2 + st["op"] % 3]
+        if st["prep"] == 2 and not st["init"]:
+            # eigenstates of X and Y on single qubits: certain after the basis rotation of the term (|+> on qubit 0, |-> on qubit 1, |+i> on qubit 2)
+            spec = [("H", [0], None, ""), ("X", [1], None, ""), ("H", [1], None, ""), ("H", [2], None, ""), ("S", [2], None, "")]
+            words = ["XII", "IXI", "IIY", "XXI", "XIY"][: 2 + st["op"] % 4]
+    gates = build_prep(spec)
+    mixed = any(g.name == "MEASURE" for g in gates)
+    desired = "1" if mixed else None
+    c = mk_circuit(gates, n)
+    coefs = {w: (rnd.uniform(-1, 1) + (1j * rnd.uniform(-1, 1) if (mode == "exact" and st["op"] % 2 == 1) else 0)) for w in words}
+    qop = QubitOperator()
+    for w, cf in coefs.items():
+        qop += QubitOperator(tuple((i, p_) for i, p_ in enumerate(w) if p_ != "I"), cf)
+    init = None
+    if st["init"]:
+        if mode == "sampled_certain":
+            init = np.zeros(2 ** n, dtype=complex)
+            init[rnd.randrange(2 ** n)] = 1.0
+        else:
+            v = np.array([rnd.gauss(0, 1) + 1j * rnd.gauss(0, 1) for _ in range(2 ** n)])
+            init = v / np.linalg.norm(v)
+    ref = sum(cf * exact_expectation(gates, n, w, desired, init)[0] for w, cf in coefs.items())
+    def circ_state():      # (the success probabilities / applied gates a simulation with mid-circuit measurements records on the circuit are documented outputs)
+        return snapshot({k: v for k, v in c.__dict__.items() if k not in ("_probabilities", "_applied_gates")})
+    op_before, c_before = snapshot(dict(qop.terms)), circ_state()
+    sim = _generic_backend(n_shots=7 if mode == "sampled_certain" else None)
+    args = [sim, qop, c, init] + ([desired] if desired else [])
+    if mode == "exact":
+        val = h.call(BK, "Backend.get_expectation_value", *args)
+    else:
+        val = h.call(BK, "Backend._get_expectation_value_from_statevector", *args)
+    h.check("expectation value == <psi|H|psi> (generic statevector route)", abs(complex(val) - ref) < 1e-8, detail=f"{val} vs {ref}")
+    h.check("operator unchanged", snapshot(dict(qop.terms)) == op_before)
+    h.check("circuit unchanged", circ_state() == c_before)
+    h.done()
+
+
 from tverif.engine import repeatable
 repeatable((MB, "measurement_basis_gates"))
 
